@@ -178,6 +178,7 @@ package standard
 //@ requires [distinct] forall i int, j int :: 0 <= i && i < j && j < len(metadata) && metadata[i] != nil && metadata[j] != nil ==> bytes(metadata[i].PubKey) != bytes(metadata[j].PubKey)
 //@ modifies db
 //@ ensures [len] len(result) == len(req)
+//@ ensures [fresh] fresh(result)
 //@ ensures [verdicts] forall i int :: 0 <= i && i < len(req) ==> result[i] == rules.APPROVED || result[i] == rules.DENIED || result[i] == rules.FAILED || result[i] == rules.UNKNOWN
 //@ ensures [sound-wf] forall i int :: 0 <= i && i < len(req) && result[i] == rules.APPROVED ==> len(metadata) == len(req) && metadata[i] != nil && req[i] != nil && req[i].Source != nil && req[i].Target != nil
 //@ ensures [sound-ok] forall i int :: 0 <= i && i < len(req) && result[i] == rules.APPROVED ==> old(wmAttOk(bytes(metadata[i].PubKey)))
